@@ -10,3 +10,66 @@ def run(ctx):
                 "operation or a recover")
     ctx.assumptions = ["same daemon model as C05", "global (cluster-wide) view is checked by the c06 global driver"]
     tc.pipeline(ctx, ["agree", "truthful", "filter"])
+    global_view(ctx)
+
+
+def global_view(ctx):
+    """cluster-wide view: GlobalStatus.tla exhaustive over 3 members, then seeded situations on 3 real Cluster peers"""
+    import itertools, json, os, random
+    import tla, vcheck
+    ctx.tlc("GlobalStatusMC.tla", "GlobalStatusMC.cfg", workers=8, timeout=1200)
+    rng = random.Random(ctx.seed)
+    peers = ["p1", "p2", "p3"]
+    sits = []
+    def subsets(xs):
+        return [list(c) for k in range(len(xs) + 1) for c in itertools.combinations(xs, k)]
+    allsits = []
+    for m in subsets(peers):
+        if not m:
+            continue
+        for d in subsets(m):
+            if len(d) == len(m):
+                continue
+            for inp in (True, False):
+                for ev in (True, False):
+                    for a in subsets(m):
+                        if ev and a:
+                            continue
+                        if not ev and inp and not a:
+                            continue
+                        if not inp and (ev or a):
+                            continue
+                        allsits.append((m, d, inp, ev, a))
+    rng.shuffle(allsits)
+    pick = allsits if not ctx.quick() else allsits[:60]
+    for (m, d, inp, ev, a) in pick:
+        sits.append({"members": m, "everywhere": ev, "allocs": a, "down": d, "inpinset": inp,
+                     "report": {p: rng.choice(["pinned", "pin_error", "pinning"]) for p in peers}})
+    inp = os.path.join(ctx.work, "global_sits.ndjson")
+    with open(inp, "w") as f:
+        for s in sits:
+            f.write(json.dumps(s) + "\n")
+    trace = os.path.join(ctx.work, "global_obs.ndjson")
+    ctx.go_test("c06_global", run="TestDriver", infile=inp, env={"VERIF_TRACE": trace}, timeout=1800)
+    verdict = os.path.join(ctx.work, "global_verdict.ndjson")
+    r = tla.run_tlc(ctx.specdir(), "GlobalStatusObs.tla", "GlobalStatusObs.cfg", workers=1, timeout=1200,
+                    env_extra={"TRACE_FILE": trace, "VERDICT_FILE": verdict})
+    ctx.log("tlc GlobalStatusObs: rc=%s %.1fs" % (r.rc, r.wall))
+    if not os.path.exists(verdict):
+        print(r.out[-3000:])
+        raise vcheck.Infra("GlobalStatusObs produced no verdict")
+    v = json.loads(open(verdict).readline())
+    recs = [json.loads(l) for l in open(trace)]
+    ctx.extra["global_views_judged_by_tlc"] = v["n"]
+    ctx.traces_validated += v["n"] - len(v["bad"]) - len(v["knowndev"])
+    for i in v["bad"]:
+        rec = recs[i - 1]
+        ctx.violation("C06:global:%s:%s" % (rec["call"], "down" if rec["sit"]["down"] else "up"),
+                      "cluster-wide view contradicts the statement: %s" % json.dumps(rec["view"]), rec)
+    for i in v["knowndev"][:1]:
+        ctx.violation("C06:global:statusall:unreachable-nonallocated-member-is-cluster_error",
+                      "StatusAll reports an unreachable member that is not allocated as cluster_error instead of remote", recs[i - 1])
+    drift = [i for i in v["drift"] if i not in v["bad"] and i not in v["knowndev"]]
+    if drift:
+        print("SPEC-DRIFT: %d cluster-wide views satisfy the statement but differ from the transcription of "
+              "globalPinInfoCid/globalPinInfoSlice (first: %s)" % (len(drift), json.dumps(recs[drift[0] - 1])), flush=True)
